@@ -116,3 +116,28 @@ def refusal_during_connect_is_heard(chk: Check, repo: Repo) -> None:
         handlers = [t for t in exc_succ if cfg2.nodes[t].kind == "handler"]
         bad = [h for h in handlers if not cfg2.all_paths_hit(h, resets, ends=[cfg2.raise_exit, cfg2.exit])]
         chk.ob("connected-flag-is-set-before-the-connect-telegram", pc.site(), bool(handlers) and not bad, "a failed send resets the flag in every handler", key="p2p-connect|reset-on-failure")
+
+
+def override_implies_no_dpt_class(chk: Check, repo: Repo) -> None:
+    """RemoteValue.process takes the eagerly decoded value whenever its transcoder *is* the remote value's dpt_class.
+    A RemoteValue subclass with a from_knx of its own (scaling ranges, inversion, step conversion) must therefore have
+    no dpt_class - else the generic decode replaces its own and the device reports another value than the telegram it
+    sent encodes (C38: depends on the table; C39: the command does not loop back)."""
+    from ..astx import attr_writes
+    RV = "xknx.remote_value.remote_value"
+    base = repo.cls(RV, "RemoteValue")
+    subs = repo.subclasses(base, strict=True)
+    chk.floor("remote_value_subclasses", len(subs), 25)
+    inst_writers = {w.func.cls.name: w for w in attr_writes(repo, "dpt_class", include_mutators=False) if w.func.cls is not None and w.receiver == "self"}
+    n_over = 0
+    for k in subs:
+        fk = repo.lookup_method(k, "from_knx")
+        if fk is None or fk.cls == base:
+            continue
+        n_over += 1
+        hit = repo.class_attr_expr(k, "dpt_class")
+        cls_val = ast.unparse(hit[0]) if hit else "None"
+        inst = [c.name for c in repo.mro(k) if c.name in inst_writers]
+        ok = cls_val == "None" and not inst
+        chk.ob("override-implies-no-dpt-class", fk.site(), ok, f"{k.name}.from_knx is overridden by {fk.cls.name}; class dpt_class = {cls_val}; per-instance dpt_class writers in MRO: {inst}", key=f"override|{k.name}")
+    chk.count("from_knx_overrides", n_over)
